@@ -88,3 +88,10 @@ check("C13",
   "(1) For every level count in the bound and every reference/omit index the real Treatment/Sum matrices have the documented shape, [1|reduced] has full column rank and the full matrix rank n (z3, QF_LRA), columns are level indicators / zero-sum contrasts with the omitted level -1, labels name the column levels. (2) C/T/S with every permutation of the levels as levels=, every ref/omit (levels include 0 and a negative value) run through the real pipeline with z3-real numeric cells: label order and column meaning equal the declared order with the first level / ref / omit left out. (3) For 10 formula templates, replacing the coding of f and g among 7 spellings each leaves span(X) unchanged and X full rank (z3, QF_LRA, two real runs).",
   "Trusted: z3; exact integer matrices; stubs in evidence for part (2). Level counts / permutations / templates are enumerated; coefficient vectors and numeric cells are the symbolic part.",
   "DESIGN.md section 4 C13")
+
+check("C05",
+  "symbolic execution of the real pipeline on z3-real cells for the block structure (zero outside the own group, sorted groups, effect columns == a common-effects coding) and QF_LRA rank/span decisions per grouping factor on exact integer data",
+  "model_checking",
+  "S part: for every generated (formula, flavour, row order) each group-specific term equals, as z3 terms, a matrix that is zero outside the slots of the row's own group, the groups are listed in sorted (declared for ordered data) order with g1:g2 cells lexicographic, and the effect columns equal the full or reduced common-effects coding of the effect term. L part: for every (effect expression, grouping expression, with/without 0 +) z3 (QF_LRA) decides that the columns of all terms sharing a grouping factor are linearly independent and span ModelSpace(effect) (x) indicators(group cells). Three known findings (effect interactions without margins, several terms without intercept) are listed by explicit formula.",
+  "Trusted: z3; exact integer data in general position (L); stubs in evidence (S); the three lists under known/. Effect/grouping expressions and flavours are enumerated.",
+  "DESIGN.md section 4 C05")
